@@ -23,15 +23,15 @@ Full statements:
 
   theorem semi14_exact : (∀ k ≤ N, mom g k = 2/(2k+1)) → cs.length ≤ deg + 1 → 2 * deg ≤ N → 0 < h →
       √h · semi14 g (evalPoly cs) a h = ∫_a^{a+h} ∫_a^{a+h} (f x - f y)² / |x - y|^{3/2} dy dx
-    — NOT formalised (`semi14_exact_partial`).  Here the integrand is not a polynomial (`|x - y|^{1/2}` remains after
-    dividing out `(x - y)²`), the double integral is improper at the diagonal.  Proved: `semi14_exact_partial`,
-    `semi14_reduction`, `semi14_moment_form`, `semi14_exact_indep`, `sqrtinv_weight_moment`: the value returned for exact
-    rules is a single number `v(f, a, h)` — the bilinear moment form of the Duffy-transformed polynomial integrand
-    evaluated at the moments of the weight, which are the real integrals `∫₀¹ xᵏ x^{-1/2}`.  Missing: linearity of the
-    iterated real integral over `Span2` with the weights `x^{-1/2} y^{-1/2}` and the Duffy substitution turning the
-    improper double integral into `2 ∫₀¹∫₀¹ (.) x^{-1/2} y^{-1/2}` (classical calculus, trusted; the harness compares the
-    real code, run with exact-moment rational rules, with the closed form of the double integral computed independently,
-    and that closed form was validated against brute-force integration).
+    — PROVED in `Props/C14Integral14.lean` (`semi14_eq_integral_ref`, `semi14_eq_integral_triangle`,
+    `semi14_eq_integral_square`, `semi14_exact`; for the generated code `gen_h14_exact` in `Props/C14Integral14Gen.lean`).
+    The integrand is not a polynomial (`|x - y|^{1/2}` remains after dividing out `(x - y)²`), but the Duffy-transformed
+    summand of the routine is a polynomial against the weights `x^{-1/2} y^{-1/2}`: linearity of the iterated weighted
+    integral over `Span2` plus the moments `∫₀¹ xᵏ x^{-1/2} = 2/(2k+1)` give the reference-square integral, two affine
+    substitutions the triangle integral, Fubini for the continuous symmetric kernel `|t - s|^{1/2} D(t, s)²` the square.
+    `semi14_exact_partial`, `semi14_reduction`, `semi14_moment_form`, `semi14_exact_indep`, `sqrtinv_weight_moment` below are
+    kept under their names (one value `v(f, a, h)` for all exact rules — it is `h^{-1/2}` times that integral,
+    `semi14_exact_value`).
 Binary64 rounding ("twelve digits") is not modelled.
 -/
 namespace Stbem.C14
